@@ -507,7 +507,7 @@ def check(prop, tier, only=None, keep=False):
         native_units = [u for u in units if u["engine"] == "native"]
         results = {}
         if kani_units or native_units:
-            mods = deps_closure(cat, sorted({u["module"] for u in kani_units + native_units}))
+            mods = deps_closure(cat, sorted({u["module"] for u in kani_units + native_units if u.get("module")}))
             pre = getattr(cat, "pre_run", None)
             if pre:
                 pre(VERIF, REPO, mods)
@@ -672,7 +672,7 @@ def handle_violations(cat, prop, items, dst, scratch):
             nout[pkg] = o
     for u, r, failed in items:
         pkg = cat.MODULES[u["module"]]["pkg"] if u["engine"] == "kani" else None
-        fc = [describe(c) for c in failed] if isinstance(failed, list) else [str(failed)]
+        fc = [describe(c) if isinstance(c, dict) else str(c) for c in failed] if isinstance(failed, list) else [str(failed)]
         rp = dict(property=prop, obligation=u["name"], engine=u["engine"], harness=u.get("harness"), module=u.get("module"),
                   package=pkg, statement=u.get("desc", ""), functions=u.get("functions", []), failed_checks=fc,
                   features=u.get("features", ""), reproduced=False, test_name=None, test_source=None, verifier_output=None,
